@@ -156,6 +156,36 @@ fn main() {
             }
             if bad.is_empty() { println!("OK workers {op}") } else { println!("REPRODUCED workers {op}: {}", bad.join("; ")) }
         }
+        // rbac: bounded probe of the access decision: constant_time_compare on all strings of <= 3 chars over {a, b, NUL}; authenticate on every key table of
+        // <= 2 keys from {"", "k1", "k2"} x roles, allow_anonymous and anonymous role, against every provided key (absent, "", "k1", "k2", "zz"); has_permission on all pairs
+        "rbac" => {
+            use std::collections::HashMap;
+            use varpulis_cluster::rbac::{ApiKeyEntry, RbacConfig, Role};
+            let mut bad: Vec<String> = Vec::new(); let mut count = 0usize;
+            let alpha = ['a', 'b', '\0'];
+            let mut strs: Vec<String> = vec![String::new()];
+            for len in 1..=3 { for id in 0..alpha.len().pow(len as u32) { let mut x = id; let mut s = String::new(); for _ in 0..len { s.push(alpha[x % 3]); x /= 3 } strs.push(s) } }
+            for x in &strs { for y in &strs { count += 1; if varpulis_core::security::constant_time_compare(x, y) != (x == y) && bad.len() < 3 { bad.push(format!("constant_time_compare({x:?}, {y:?}) = {}", x != y)) } } }
+            let roles = [Role::Viewer, Role::Operator, Role::Admin];
+            for (i, r) in roles.iter().enumerate() { for (j, q) in roles.iter().enumerate() { count += 1; if r.has_permission(*q) != (i >= j) && bad.len() < 3 { bad.push(format!("{r:?}.has_permission({q:?}) = {}", r.has_permission(*q))) } } }
+            let names = ["", "k1", "k2"];
+            for mask in 0..27usize {          // per key: absent or one of the three roles -> 4^3, encoded base 4 below
+                let _ = mask;
+            }
+            for code in 0..64usize {
+                let mut keys: HashMap<String, ApiKeyEntry> = HashMap::new(); let mut x = code;
+                for n in names { let c = x % 4; x /= 4; if c > 0 { keys.insert(n.to_string(), ApiKeyEntry { role: roles[c - 1], name: None }); } }
+                for anon in [false, true] { for ar in roles {
+                    let mut cfg = RbacConfig::multi_key(keys.clone()); cfg.allow_anonymous = anon; cfg.anonymous_role = ar;
+                    for prov in [None, Some(""), Some("k1"), Some("k2"), Some("zz")] {
+                        let want = if anon && keys.is_empty() { Some(ar) } else { match prov { None => if anon { Some(ar) } else { None }, Some(k) => keys.get(k).map(|e| e.role) } };
+                        let got = cfg.authenticate(prov); count += 1;
+                        if got != want && bad.len() < 3 { bad.push(format!("authenticate({prov:?}) with keys {:?}, anonymous {anon}/{ar:?} = {got:?}, expected {want:?}", keys.iter().map(|(k, e)| (k.clone(), e.role)).collect::<Vec<_>>())) }
+                    }
+                } }
+            }
+            if bad.is_empty() { println!("OK rbac: {count} cases agree with the specification") } else { println!("REPRODUCED rbac: {}", bad.join("; ")) }
+        }
         "routing" => {
             use varpulis_cluster::pipeline_group::{DeployedPipelineGroup, InterPipelineRoute, PartitionStrategy, PipelineGroupSpec, PipelinePlacement, ReplicaGroup};
             use varpulis_cluster::routing::{event_type_matches, find_target_pipeline};
